@@ -52,7 +52,7 @@ ASSUMPTIONS = [
 ]
 
 REFUSALS = ["other_ndim", "incompatible_bins", "shifted_by_one_bin", "int", "str", "none", "list", "ndarray", "shifted_grid",
-            "near_width", "near_width"]
+            "near_width", "near_width", "empty_left_other_grid", "empty_left_other_grid"]
 
 
 # ----------------------------------------------------------------------------
@@ -159,6 +159,8 @@ def generate(rng, seed, part):
             items = [rng.choice(nodes) for _ in range(k)]
             kind = "coll_sum" if (ndim == 1 and mode == "fixed" and rng.random() < 0.4) else "sum"
             ops.append({"op": kind, "items": items, "out": nxt})
+            if kind == "coll_sum":
+                ops[-1]["via_add"] = rng.random() < 0.5
             if rng.random() < 0.35:
                 # the usual continuation of a reduction: accumulate further into the sum, in place
                 ops[-1]["then_iadd"] = rng.choice(nodes)
@@ -600,6 +602,14 @@ def execute(plan, ctx, rules=("C05",)):
             pres = [snap(x.h) for x in items]
             if o == "sum":
                 ok, res = attempt(lambda: sum(x.h for x in items))
+            elif op.get("via_add"):
+                def coll_by_add():
+                    # the members enter one by one (the same histogram may well be entered twice: it counts twice)
+                    c = HistogramCollection(items[0].h)
+                    for x in items[1:]:
+                        c.add(x.h)
+                    return c.sum()
+                ok, res = attempt(coll_by_add)
             else:
                 ok, res = attempt(lambda: HistogramCollection(*[x.h for x in items]).sum())
             ctx.ev("reduce", o, tuple(op["items"]), "ok" if ok else exc_tag(res))
@@ -691,6 +701,37 @@ def execute(plan, ctx, rules=("C05",)):
         elif o == "refuse":
             a = nodes.get(op["a"])
             if a is None or not c05:
+                continue
+            if op["kind"] == "empty_left_other_grid":
+                # an accumulator without any bins yet, set up on another grid (shift) than the histogram added to it:
+                # either that is refused, or the sum is the histogram itself - never its counts on moved bins
+                if cfg["mode"] != "adaptive" or any(b.bin_count == 0 for b in a.h.binnings) or not a.h.is_adaptive():
+                    continue
+                from physt.binnings import FixedWidthBinning
+                from physt.histogram1d import Histogram1D
+                from physt.histogram_nd import HistogramND
+
+                bs = [FixedWidthBinning(bin_width=b.bin_width, bin_count=0, adaptive=True,
+                                        bin_shift=b._shift + b.bin_width * 0.37) for b in a.h.binnings]
+                left = Histogram1D(bs[0]) if a.h.ndim == 1 else HistogramND(bs)
+                pre = snap(a.h)
+                how = ["add", "iadd", "sum"][(step + len(a.bag)) % 3]
+                if how == "add":
+                    ok, res = attempt(lambda: left + a.h)
+                elif how == "iadd":
+                    ok, res = attempt(lambda: left.__iadd__(a.h))
+                else:
+                    ok, res = attempt(lambda: sum([left, a.h]))
+                ctx.fault("refusal_probe")
+                ctx.ev("reduce", f"empty-left-other-grid:{how}", op["a"], "accepted" if ok else exc_tag(res))
+                ctx.abstract("refuse", "empty-left-other-grid", how, ok)
+                if snap_diff(pre, snap(a.h)):
+                    ctx.violation("C05/operands-unchanged", f"C05/operand-modified/{kind}/empty-left-other-grid",
+                                  f"adding a histogram to an empty accumulator changed the histogram: {snap_diff(pre, snap(a.h))}")
+                if ok:
+                    numeric_equal(cfg, res, a.h, wscale(a.bag), "C05/equals-combined-data",
+                                  f"C05/sum!=direct/{kind}/empty-left-other-grid", ctx,
+                                  f"an empty accumulator on another grid + h ({how}) was accepted: the sum must then be h itself")
                 continue
             other, label = refusal_operand(op["kind"], a.h, cfg)
             if other is NotImplemented:
